@@ -3,10 +3,11 @@ import json
 import subprocess
 import sys
 
-from . import adjacency
+from . import adjacency, search
 
 REGISTRY = {}
 REGISTRY.update(adjacency.CHECKS)
+REGISTRY.update(search.CHECKS)
 
 
 def replay(pid, path):
